@@ -329,6 +329,36 @@ func (d *DetInformer) Relist(api *API) (int, int) {
 	return changed, len(ns) - changed
 }
 
+// PlanRelist returns, without changing anything, the changes a Relist would report now, as synthetic events in
+// the order Relist delivers them (Deleted events carry the cache's last copy, as the tombstone does).
+func (d *DetInformer) PlanRelist(api *API) []*Event {
+	api.mu.Lock()
+	objs := api.listLocked(d.Kind)
+	api.mu.Unlock()
+	var out []*Event
+	present := map[string]bool{}
+	for _, o := range objs {
+		key, _ := cache.MetaNamespaceKeyFunc(o)
+		present[key] = true
+		old, exists, _ := d.raw.GetByKey(key)
+		if !exists {
+			out = append(out, &Event{Kind: d.Kind, Type: Added, Object: o})
+			continue
+		}
+		om, _ := meta.Accessor(old)
+		nm, _ := meta.Accessor(o)
+		if om.GetResourceVersion() != nm.GetResourceVersion() {
+			out = append(out, &Event{Kind: d.Kind, Type: Modified, Old: old.(runtime.Object), Object: o})
+		}
+	}
+	for _, old := range d.sortedList() {
+		if key, _ := cache.MetaNamespaceKeyFunc(old); !present[key] {
+			out = append(out, &Event{Kind: d.Kind, Type: Deleted, Object: old.(runtime.Object)})
+		}
+	}
+	return out
+}
+
 // Resync re-delivers every cached object as an update (old == new), like the periodic resync of client-go.
 func (d *DetInformer) Resync() {
 	for _, o := range d.sortedList() {
